@@ -1,1 +1,355 @@
-fn main(){}
+//! vdriver: concretise abstract cases, drive the real generator with hooks on, record observations.
+mod concretise;
+mod model;
+mod oracle;
+mod project;
+
+use model::*;
+use serde_json::{json, Map, Value};
+use std::io::{BufRead, BufWriter, Write};
+use std::panic::{catch_unwind, AssertUnwindSafe};
+
+/// Make a JSON value digestible by TLC's Json module: no nulls, no floats, no integers outside
+/// i32, ASCII-only strings (non-ASCII is spelled `\u{..}`).
+pub fn ascii_safe(s: String) -> String {
+    if s.is_ascii() && !s.chars().any(|c| (c as u32) < 0x20 || c as u32 == 0x7f) {
+        return s;
+    }
+    let mut o = String::new();
+    for c in s.chars() {
+        if c.is_ascii() && (c as u32) >= 0x20 && c as u32 != 0x7f {
+            o.push(c)
+        } else {
+            o.push_str(&format!("\\u{{{:x}}}", c as u32))
+        }
+    }
+    o
+}
+
+pub fn tlc_safe(v: Value) -> Value {
+    match v {
+        Value::Null => Value::String("null".into()),
+        Value::Bool(b) => Value::Bool(b),
+        Value::Number(n) => {
+            if let Some(i) = n.as_i64() {
+                if i >= i32::MIN as i64 && i <= i32::MAX as i64 {
+                    return Value::Number(n);
+                }
+            }
+            Value::String(n.to_string())
+        }
+        Value::String(s) => Value::String(ascii_safe(s)),
+        Value::Array(a) => Value::Array(a.into_iter().map(tlc_safe).collect()),
+        Value::Object(m) => Value::Object(
+            m.into_iter()
+                .filter(|(_, v)| !v.is_null())
+                .map(|(k, v)| (ascii_safe(k), tlc_safe(v)))
+                .collect(),
+        ),
+    }
+}
+
+fn rank_fill(s: &mut Shader) {
+    // order- and equality-preserving small-integer abstraction of @group/@binding
+    let mut gs: Vec<u64> = vec![];
+    let mut bs: Vec<u64> = vec![];
+    for g in &s.globals {
+        if let Some(x) = &g.group {
+            gs.push(x.parse().unwrap_or(0));
+        }
+        if let Some(x) = &g.binding {
+            bs.push(x.parse().unwrap_or(0));
+        }
+    }
+    let abs = |vals: &mut Vec<u64>| {
+        vals.sort();
+        vals.dedup();
+    };
+    abs(&mut gs);
+    abs(&mut bs);
+    // identity below 2^20, otherwise 2^20 + rank among the large values
+    let map = |vals: &Vec<u64>, x: u64| -> i64 {
+        if x < (1 << 20) {
+            x as i64
+        } else {
+            let r = vals.iter().filter(|v| **v >= (1 << 20) && **v < x).count();
+            (1 << 20) + r as i64
+        }
+    };
+    for g in &mut s.globals {
+        if let Some(x) = &g.group {
+            g.gr = map(&gs, x.parse().unwrap_or(0));
+        }
+        if let Some(x) = &g.binding {
+            g.br = map(&bs, x.parse().unwrap_or(0));
+        }
+    }
+}
+
+fn panic_msg(e: Box<dyn std::any::Any + Send>) -> String {
+    if let Some(s) = e.downcast_ref::<&str>() {
+        s.to_string()
+    } else if let Some(s) = e.downcast_ref::<String>() {
+        s.clone()
+    } else {
+        "?".into()
+    }
+}
+
+pub struct CallOutcome {
+    pub ret: Value,
+    pub text: Option<String>,
+    pub hooks: Vec<String>,
+    pub work: [u64; 4],
+    pub micros: u128,
+    pub renders: Value,
+}
+
+pub fn call_generator(src: &str, opts: &Opts, detail: u64, budget: u64) -> CallOutcome {
+    let wo = opts.to_write_options();
+    wgsl_to_wgpu::verif::start(detail, budget);
+    let t0 = std::time::Instant::now();
+    let r = catch_unwind(AssertUnwindSafe(|| match &opts.include {
+        Some(p) => wgsl_to_wgpu::create_shader_module(src, p, wo),
+        None => wgsl_to_wgpu::create_shader_module_embedded(src, wo),
+    }));
+    let micros = t0.elapsed().as_micros();
+    let work = wgsl_to_wgpu::verif::work_done();
+    let hooks = wgsl_to_wgpu::verif::take();
+    let mut renders = Value::Null;
+    let (ret, text) = match r {
+        Ok(Ok(text)) => (json!({"kind":"ok"}), Some(text)),
+        Ok(Err(e)) => {
+            use wgsl_to_wgpu::CreateModuleError as E;
+            let disp = format!("{e}");
+            let (name, extra) = match &e {
+                E::NonConsecutiveBindGroups => ("NonConsecutiveBindGroups", json!({})),
+                E::DuplicateBinding { binding } => ("DuplicateBinding", json!({"binding": binding.to_string()})),
+                E::ParseError { error } => ("ParseError", json!({"msg": error.message()})),
+                E::ValidationError { error } => ("ValidationError", json!({"msg": format!("{}", error.as_inner())})),
+                _ => ("Other", json!({})),
+            };
+            // rendering the error against the same source must not panic (C17)
+            let r1 = catch_unwind(AssertUnwindSafe(|| e.emit_to_string(src)));
+            let r2 = catch_unwind(AssertUnwindSafe(|| e.emit_to_string_with_path(src, "shader.wgsl")));
+            renders = json!({
+                "to_string": match &r1 { Ok(s) => json!({"ok": true, "len": s.len()}), Err(_) => json!({"ok": false}) },
+                "to_string_with_path": match &r2 { Ok(s) => json!({"ok": true, "len": s.len(), "has_path": s.contains("shader.wgsl")}), Err(_) => json!({"ok": false}) },
+            });
+            let mut m = json!({"kind":"err","err":name,"display":disp});
+            if let (Some(mm), Some(ex)) = (m.as_object_mut(), extra.as_object()) {
+                for (k, v) in ex {
+                    mm.insert(k.clone(), v.clone());
+                }
+            }
+            (m, None)
+        }
+        Err(p) => (json!({"kind":"panic","msg":panic_msg(p)}), None),
+    };
+    CallOutcome {
+        ret,
+        text,
+        hooks,
+        work,
+        micros,
+        renders,
+    }
+}
+
+fn cmd_gen(args: &[String]) {
+    // vdriver gen <cases.ndjson> <trace.ndjson> [--out <dir>] [--detail N] [--budget N] [--no-project]
+    let cases_path = &args[0];
+    let trace_path = &args[1];
+    let mut outdir: Option<String> = None;
+    let mut detail = 0u64;
+    let mut budget = 0u64;
+    let mut keep: Option<Vec<String>> = None;
+    let mut do_project = true;
+    let mut keep_s = true;
+    let mut i = 2;
+    while i < args.len() {
+        match args[i].as_str() {
+            "--out" => {
+                outdir = Some(args[i + 1].clone());
+                i += 1
+            }
+            "--detail" => {
+                detail = args[i + 1].parse().unwrap();
+                i += 1
+            }
+            "--budget" => {
+                budget = args[i + 1].parse().unwrap();
+                i += 1
+            }
+            "--keep" => {
+                keep = Some(args[i + 1].split(',').map(|s| s.to_string()).collect());
+                i += 1
+            }
+            "--no-project" => do_project = false,
+            "--no-s" => keep_s = false,
+            _ => {}
+        }
+        i += 1;
+    }
+    if let Some(d) = &outdir {
+        std::fs::create_dir_all(d).unwrap();
+    }
+    let input = std::io::BufReader::new(std::fs::File::open(cases_path).expect("cases file"));
+    let mut out = BufWriter::new(std::fs::File::create(trace_path).expect("trace file"));
+    std::panic::set_hook(Box::new(|_| {}));
+    let mut n = 0u64;
+    for line in input.lines() {
+        let line = line.unwrap();
+        if line.trim().is_empty() {
+            continue;
+        }
+        let mut case: Case = match serde_json::from_str(&line) {
+            Ok(c) => c,
+            Err(e) => {
+                eprintln!("bad case line: {e}: {}", &line[..line.len().min(200)]);
+                std::process::exit(2);
+            }
+        };
+        if let Some(s) = case.s.as_mut() {
+            rank_fill(s);
+        }
+        let src = match (&case.wgsl, &case.s) {
+            (Some(w), _) => w.clone(),
+            (None, Some(s)) => {
+                match catch_unwind(AssertUnwindSafe(|| concretise::concretise(s))) {
+                    Ok(t) => t,
+                    Err(p) => {
+                        eprintln!("concretiser failed on case {}: {}", case.id, panic_msg(p));
+                        std::process::exit(2);
+                    }
+                }
+            }
+            _ => {
+                eprintln!("case {} has neither S nor wgsl", case.id);
+                std::process::exit(2);
+            }
+        };
+        let orc = oracle::run(&src, &case.opts.validate);
+        let mut ev = Map::new();
+        ev.insert("ev".into(), json!("case"));
+        ev.insert("id".into(), json!(case.id));
+        ev.insert("family".into(), json!(case.family));
+        ev.insert("has_s".into(), json!(case.s.is_some() && keep_s));
+        if keep_s {
+            if let Some(s) = &case.s {
+                ev.insert("S".into(), serde_json::to_value(s).unwrap());
+            }
+        }
+        ev.insert("opts".into(), serde_json::to_value(&case.opts).unwrap());
+        ev.insert("src_sha".into(), json!(project::hash_bytes(src.as_bytes())));
+        ev.insert("src_len".into(), json!(src.len()));
+        writeln!(out, "{}", tlc_safe(Value::Object(ev))).unwrap();
+
+        // work budget: well above the quadratic bound judged by C20, so that exceeding it is decisive
+        let budget = if budget > 0 {
+            budget
+        } else {
+            let ir = &orc.json["ir"];
+            let n = ir["nodes"].as_u64().unwrap_or(0) + ir["types"].as_u64().unwrap_or(0) + ir["globals"].as_u64().unwrap_or(0) + 8;
+            4 * n * n + 10_000
+        };
+        let oc = call_generator(&src, &case.opts, detail, budget);
+        for h in &oc.hooks {
+            // hook lines are already JSON; pass through the sanitiser
+            match serde_json::from_str::<Value>(h) {
+                Ok(v) => writeln!(out, "{}", tlc_safe(v)).unwrap(),
+                Err(_) => writeln!(out, "{}", json!({"ev":"hook.bad","raw":h})).unwrap(),
+            }
+        }
+        let mut obs = Map::new();
+        obs.insert("ev".into(), json!("obs"));
+        obs.insert("id".into(), json!(case.id));
+        obs.insert("ret".into(), oc.ret.clone());
+        obs.insert("work".into(), json!(oc.work.to_vec()));
+        obs.insert("micros".into(), json!(oc.micros as u64));
+        obs.insert("oracle".into(), orc.json.clone());
+        if !oc.renders.is_null() {
+            obs.insert("renders".into(), oc.renders.clone());
+        }
+        if let Some(text) = &oc.text {
+            obs.insert("text_sha".into(), json!(project::hash_bytes(text.as_bytes())));
+            obs.insert("text_len".into(), json!(text.len()));
+            match project::tokens_sha(text) {
+                Some(t) => {
+                    obs.insert("tokens_sha".into(), json!(t));
+                }
+                None => {
+                    obs.insert("tokens_sha".into(), json!("unparsable"));
+                }
+            }
+            if do_project {
+                match project::project(text, &src) {
+                    Ok(mut p) => {
+                        if let (Some(k), Some(m)) = (&keep, p.as_object_mut()) {
+                            m.retain(|key, _| k.iter().any(|x| x == key));
+                        }
+                        obs.insert("out".into(), p);
+                        obs.insert("parsed".into(), json!(true));
+                    }
+                    Err(e) => {
+                        obs.insert("parsed".into(), json!(false));
+                        obs.insert("parse_err".into(), json!(e));
+                    }
+                }
+            }
+            // repeat calls (C18, in-process determinism)
+            let mut same = true;
+            for _ in 0..case.repeat {
+                let again = call_generator(&src, &case.opts, 0, budget);
+                if again.text.as_deref() != Some(text.as_str()) {
+                    same = false;
+                }
+            }
+            if case.repeat > 0 {
+                obs.insert("repeat_same".into(), json!(same));
+            }
+            if let Some(d) = &outdir {
+                std::fs::write(format!("{d}/{}.rs", case.id), text).unwrap();
+            }
+        }
+        if let Some(d) = &outdir {
+            std::fs::write(format!("{d}/{}.wgsl", case.id), &src).unwrap();
+        }
+        writeln!(out, "{}", tlc_safe(Value::Object(obs))).unwrap();
+        n += 1;
+    }
+    out.flush().unwrap();
+    eprintln!("vdriver gen: {n} cases");
+}
+
+fn cmd_concretise(args: &[String]) {
+    let input = std::io::BufReader::new(std::fs::File::open(&args[0]).expect("cases file"));
+    for line in input.lines() {
+        let line = line.unwrap();
+        if line.trim().is_empty() {
+            continue;
+        }
+        let case: Case = serde_json::from_str(&line).expect("case");
+        let src = case
+            .wgsl
+            .clone()
+            .unwrap_or_else(|| concretise::concretise(case.s.as_ref().unwrap()));
+        println!("// ---- {}\n{}", case.id, src);
+    }
+}
+
+fn main() {
+    let args: Vec<String> = std::env::args().skip(1).collect();
+    if args.is_empty() {
+        eprintln!("usage: vdriver <gen|concretise> ...");
+        std::process::exit(2);
+    }
+    match args[0].as_str() {
+        "gen" => cmd_gen(&args[1..]),
+        "concretise" => cmd_concretise(&args[1..]),
+        other => {
+            eprintln!("unknown subcommand {other}");
+            std::process::exit(2);
+        }
+    }
+}
